@@ -21,6 +21,12 @@ mod v_socket_dns {
     const S4: Ipv4Address = Ipv4Address::new(8, 8, 8, 8);
     const S6: Ipv6Address = Ipv6Address::new(0x2001, 0xdb8, 0, 0, 0, 0, 0, 0x53);
 
+    /// The socket's query storage is always a prefix of a larger array: CBMC's symbolic execution cannot decide
+    /// `Flatten<slice::IterMut>` exhaustion when the one-past-the-end pointer leaves the array object and would
+    /// unroll `for q in self.queries.iter_mut().flatten()` (with junk iterations) up to the unwind bound
+    /// (measured: 1 slot, unwind 10 => out of memory at 6 GB; padded => bounded at the real slot count).
+    const PAD: usize = 2;
+
     macro_rules! dns_env {
         ($dev:ident, $iface:ident, $cx:ident, $now:ident) => {
             let mut $dev = NullDev { medium: Medium::Ip, mtu: 1500, checksum: ChecksumCapabilities::ignored() };
@@ -45,6 +51,19 @@ mod v_socket_dns {
             State::Pending(pq) => pq,
             _ => panic!("slot is not pending"),
         }
+    }
+
+    /// `<2>xx<1>x<0>` with the given label bytes, built with typed pushes (writing single bytes through the
+    /// `[u8]` view of the heapless buffer makes CBMC treat the whole name, layout included, as symbolic)
+    fn name_of(qn: [u8; 3]) -> Vec<u8, DNS_MAX_NAME_SIZE> {
+        let mut v = Vec::new();
+        v.push(2).unwrap();
+        v.push(qn[0]).unwrap();
+        v.push(qn[1]).unwrap();
+        v.push(1).unwrap();
+        v.push(qn[2]).unwrap();
+        v.push(0).unwrap();
+        v
     }
 
     fn type_val(is_a: bool) -> u16 {
@@ -78,6 +97,12 @@ mod v_socket_dns {
             let v: u8 = kani::any();
             self.put(v);
             v
+        }
+        fn sym4(&mut self) {
+            self.sym();
+            self.sym();
+            self.sym();
+            self.sym();
         }
         fn sym16(&mut self) -> u16 {
             let v: u16 = kani::any();
@@ -187,10 +212,12 @@ mod v_socket_dns {
         t.sym16();
         let rdlen = t.sym16();
         let rd_off = t.n;
-        let mut i = 0;
-        while i < rd_cap {
-            t.sym();
-            i += 1;
+        // rd_cap is 4 or 16 (straight-line: no harness loop competes for the unwind bound)
+        t.sym4();
+        if rd_cap > 4 {
+            t.sym4();
+            t.sym4();
+            t.sym4();
         }
         RecT { name_off, ty, class, rdlen, rd_off, rd_cap }
     }
@@ -345,9 +372,9 @@ mod v_socket_dns {
 
     fn process_form(f: Form) -> Out {
         dns_env!(dev, iface, cx, now);
-        let mut slots: [Option<DnsQuery>; 1] = [None];
+        let mut slots: [Option<DnsQuery>; 1 + PAD] = [None, None, None];
         let servers = [IpAddress::Ipv4(S4), IpAddress::Ipv6(S6)];
-        let mut s = Socket::new(&servers[..], &mut slots[..]);
+        let mut s = Socket::new(&servers[..], &mut slots[..1]);
         let is_a: bool = kani::any();
         let qtype = if is_a { Type::A } else { Type::Aaaa };
         let h = s.start_query(cx, "ab.c", qtype).unwrap();
@@ -364,9 +391,7 @@ mod v_socket_dns {
         {
             let pq = pending_of(&mut s, 0);
             assert!(pq.name.as_slice() == &[2u8, b'a', b'b', 1, b'c', 0][..], "prop:c19_start_query_encodes_labels");
-            pq.name[1] = qn[0];
-            pq.name[2] = qn[1];
-            pq.name[4] = qn[2];
+            pq.name = name_of(qn);
             pq.txid = txid;
             pq.port = port;
             pq.server_idx = idx;
@@ -463,12 +488,11 @@ mod v_socket_dns {
                     }
                     exp_n += 1;
                 } else if r.ty == 28 && r.rdlen == 16 {
-                    let mut o16 = [0u8; 16];
-                    let mut j = 0;
-                    while j < 16 {
-                        o16[j] = m[r.rd_off + j];
-                        j += 1;
-                    }
+                    let o = r.rd_off;
+                    let o16 = [
+                        m[o], m[o + 1], m[o + 2], m[o + 3], m[o + 4], m[o + 5], m[o + 6], m[o + 7],
+                        m[o + 8], m[o + 9], m[o + 10], m[o + 11], m[o + 12], m[o + 13], m[o + 14], m[o + 15],
+                    ];
                     if exp_n < 2 {
                         exp[exp_n] = IpAddress::Ipv6(Ipv6Address::from_octets(o16));
                     }
@@ -787,9 +811,7 @@ mod v_socket_dns {
             kani::assume(ra <= now + delay as i64);
         }
         let pq = pending_of(s, 0);
-        pq.name[1] = qn[0];
-        pq.name[2] = qn[1];
-        pq.name[4] = qn[2];
+        pq.name = name_of(qn);
         pq.txid = txid;
         pq.port = port;
         pq.server_idx = idx;
@@ -818,25 +840,27 @@ mod v_socket_dns {
         len: usize,
         iplen: usize,
         hop: u8,
-        bytes: [u8; QLEN + 2],
+        /// payload byte at the symbolic probe index chosen before the call
+        byte_k: u8,
     }
 
     // @harness props=C19,C13 cfg=KN tier=q to=900 mem=6 unwind=26 opts=nomem covers=6 funcs=dns::Socket::dispatch;wire::dns::Repr::emit;wire::dns::Question::emit;InterfaceInner::get_source_address bounds=one_pending_query_(name_<2>xx<1>x,_A/AAAA,_unicast_or_mDNS)_in_any_state_a_dispatch_history_can_leave:_server_idx<servers,_delay_1..10_s,_timeout_at/retransmit_at_anywhere_up_to_now+10_s;_0..=2_IPv4_servers_with_symbolic_octets;_now<2^40_ms;_emit_returns_symbolic_Ok/Err
     #[kani::proof]
     pub(crate) fn dns_dispatch_step() {
         dns_env!(dev, iface, cx, now);
-        let mut slots: [Option<DnsQuery>; 1] = [None];
+        let mut slots: [Option<DnsQuery>; 1 + PAD] = [None, None, None];
         let servers = [any_v4(), any_v4()];
         let ns = any_le(2);
-        let mut s = Socket::new(&servers[..ns], &mut slots[..]);
+        let mut s = Socket::new(&servers[..ns], &mut slots[..1]);
         let is_a: bool = kani::any();
         let _h = s.start_query(cx, "ab.c", if is_a { Type::A } else { Type::Aaaa }).unwrap();
         let g = any_pending(&mut s, now, ns, servers, is_a);
         crate::vdump!("PRE now={} servers={:?} {:?}", now, &servers[..ns], s.queries[0]);
 
         let zero = IpAddress::Ipv4(Ipv4Address::new(0, 0, 0, 0));
-        let mut e = Emit { seen: false, dst: zero, src: zero, sport: 0, dport: 0, len: 0, iplen: 0, hop: 0, bytes: [0; QLEN + 2] };
+        let mut e = Emit { seen: false, dst: zero, src: zero, sport: 0, dport: 0, len: 0, iplen: 0, hop: 0, byte_k: 0 };
         let emit_ok: bool = kani::any();
+        let k = any_lt(QLEN);
         let res = s.dispatch(cx, |_cx, (ip, udp, payload)| {
             e.seen = true;
             e.dst = ip.dst_addr();
@@ -846,16 +870,13 @@ mod v_socket_dns {
             e.len = payload.len();
             e.iplen = ip.payload_len();
             e.hop = ip.hop_limit();
-            let mut i = 0;
-            while i < QLEN + 2 {
-                if i < payload.len() {
-                    e.bytes[i] = payload[i];
-                }
-                i += 1;
+            if k < payload.len() {
+                e.byte_k = payload[k];
             }
+            crate::vdump!("EMIT payload={:02x?}", payload);
             if emit_ok { Ok(()) } else { Err(()) }
         });
-        crate::vdump!("EMIT seen={} ok={} dst={:?}:{} sport={} len={} bytes={:02x?} res={:?}", e.seen, emit_ok, e.dst, e.dport, e.sport, e.len, &e.bytes[..], res);
+        crate::vdump!("EMIT seen={} ok={} dst={:?}:{} sport={} len={} byte[{}]={:#x} res={:?}", e.seen, emit_ok, e.dst, e.dport, e.sport, e.len, k, e.byte_k, res);
         crate::vdump!("POST {:?}", s.queries[0]);
 
         // reference
@@ -901,8 +922,7 @@ mod v_socket_dns {
                         (g.txid >> 8) as u8, g.txid as u8, 0x01, 0x00, 0, 1, 0, 0, 0, 0, 0, 0,
                         2, g.qn[0], g.qn[1], 1, g.qn[2], 0, (ty >> 8) as u8, ty as u8, 0, 1,
                     ];
-                    let k = any_lt(QLEN);
-                    assert!(e.bytes[k] == want[k], "prop:c19_query_carries_txid_name_type");
+                    assert!(e.byte_k == want[k], "prop:c19_query_carries_txid_name_type");
                     assert!(matches!(e.src, IpAddress::Ipv4(_)) == matches!(e.dst, IpAddress::Ipv4(_)), "prop:c10_source_address_family");
                     if emit_ok {
                         // back-off: next retransmission after the current delay, delay doubled up to the cap
@@ -937,10 +957,10 @@ mod v_socket_dns {
     #[kani::proof]
     pub(crate) fn dns_poll_at_step() {
         dns_env!(dev, iface, cx, now);
-        let mut slots: [Option<DnsQuery>; 1] = [None];
+        let mut slots: [Option<DnsQuery>; 1 + PAD] = [None, None, None];
         let servers = [any_v4(), any_v4()];
         let ns = any_le(2);
-        let mut s = Socket::new(&servers[..ns], &mut slots[..]);
+        let mut s = Socket::new(&servers[..ns], &mut slots[..1]);
         let is_a: bool = kani::any();
         let _h = s.start_query(cx, "ab.c", if is_a { Type::A } else { Type::Aaaa }).unwrap();
         let g = any_pending(&mut s, now, ns, servers, is_a);
@@ -1013,9 +1033,9 @@ mod v_socket_dns {
     #[kani::proof]
     pub(crate) fn dns_api_step() {
         dns_env!(dev, iface, cx, now);
-        let mut slots: [Option<DnsQuery>; 2] = [None, None];
+        let mut slots: [Option<DnsQuery>; 2 + PAD] = [None, None, None, None];
         let servers = [IpAddress::Ipv4(S4)];
-        let mut s = Socket::new(&servers[..], &mut slots[..]);
+        let mut s = Socket::new(&servers[..], &mut slots[..2]);
         let h0 = s.start_query(cx, "ab.c", Type::A).unwrap();
         assert!(h0.0 == 0 && s.queries[1].is_none(), "prop:c19_first_query_takes_first_free_slot");
         let (txid0, port0) = {
@@ -1176,9 +1196,9 @@ mod v_socket_dns {
     #[kani::proof]
     pub(crate) fn dns_api_long_names() {
         dns_env!(dev, iface, cx, now);
-        let mut slots: [Option<DnsQuery>; 1] = [None];
+        let mut slots: [Option<DnsQuery>; 1 + PAD] = [None, None, None];
         let servers = [IpAddress::Ipv4(S4)];
-        let mut s = Socket::new(&servers[..], &mut slots[..]);
+        let mut s = Socket::new(&servers[..], &mut slots[..1]);
         let a = [b'a'; 66];
         let mut b = [b'a'; 66];
         b[63] = b'.';
@@ -1216,4 +1236,5 @@ mod v_socket_dns {
             kani::cover!(pq.name.len() == 10, ".local query started");
         }
     }
+
 }
